@@ -6,7 +6,7 @@ import (
 	"verif/harness/stats"
 )
 
-const ruleC08 = "rapid-generated histories of Put (valid/invalid) and Replay (presented ID = k-th buffered | newest | oldest | evicted | never issued | unset; topic sets; Send/Flush fault) on a FiniteReplayer (N in 2..9, both ID modes), compared step by step with a last-N FIFO model, plus an invariant probe (replay from the oldest buffered ID with all topics) after every step. Non-trivial: more than N successful puts (the ring wrapped) and at least one Replay presenting a buffered, non-newest ID that had to send something. Distinct: FNV-64 of the JSON of the case."
+const ruleC08 = "rapid-generated histories of Put (valid/invalid) and Replay (presented ID = k-th buffered | newest | oldest | evicted | never issued | unset; topic sets; Send/Flush fault) on a FiniteReplayer (N in 2..9, both ID modes), compared step by step with a last-N FIFO model, plus an invariant probe (replay from the oldest buffered ID with all topics) after every step (in 30% of the cases only after the last step: the probe is itself a successful Replay). Never-issued IDs include huge numbers at the int64/uint64 limits and 20-digit numbers just above 2^64; topic sets are 1..3 of {default,a,b,c} or, 20% of the time, 1..10 of a ten-topic alphabet in either order. Non-trivial: more than N successful puts (the ring wrapped) and at least one Replay presenting a buffered, non-newest ID that had to send something. Distinct: FNV-64 of the JSON of the case."
 
 func checkC08(t *testing.T, c Case) *stats.Verdict {
 	v := &stats.Verdict{Size: len(c.Ops)}
@@ -17,7 +17,7 @@ func checkC08(t *testing.T, c Case) *stats.Verdict {
 	for i := 0; i < c.Prefill; i++ {
 		f := w.put(Op{Kind: "put", Topics: prefillTopics(i)})
 		if f == "" {
-			f = w.probe()
+			f = w.probe(false)
 		}
 		if f != "" {
 			return v.Failf("", "prefill put %d: %s", i, f)
@@ -37,7 +37,7 @@ func checkC08(t *testing.T, c Case) *stats.Verdict {
 			f = w.replay(op, false)
 		}
 		if f == "" {
-			f = w.probe()
+			f = w.probe(i == len(c.Ops)-1)
 		}
 		if f != "" {
 			return v.Failf("", "op %d (%s): %s", i, op.Kind, f)
